@@ -70,10 +70,10 @@ Proof. exact relay_chain_transparent. Qed.
    the caller's ApplicationError() is true, and the bytes that hold the arguments (checksum
    type, checksum, chunks: [rest]) arrive unchanged, directly and through any number of live
    relays; without the call the code is 0 and the flag false.
-   MISSING: decoding [rest] into arguments and continuation fragments on the reader side (the
-   fragment reader/writer model of property C01 is not part of this development; relays
-   forwarding continuation frames unchanged is C20_relay_transparent with t = 0x14).  On the
-   real code the decoded arguments are checked by the engine's oracle. *)
+   MISSING IN THIS THEOREM: decoding [rest] into arguments and continuation fragments on the
+   reader side -- supplied by C20_apperr / C20_apperr_forwarded below (module AppErrFull), which
+   use the fragment writer/reader model of property C01.  On the real code the decoded arguments
+   are also checked by the engine's oracle. *)
 Theorem C20_apperr_partial : forall sid flags (app : bool) hdrs rest hops,
   u_ok 4 sid -> u_ok 1 flags -> kvs8_ok hdrs ->
   zlen (s_callres_fragment flags (if app then 1 else 0) hdrs rest) <= 65519 ->
@@ -88,6 +88,139 @@ Theorem C20_apperr_partial : forall sid flags (app : bool) hdrs rest hops,
 Proof. exact apperr_roundtrip. Qed.
 Theorem C20_apperr_only_before_args : forall st app, 1 < st -> set_application_error (mkResp st app) = None.
 Proof. exact set_application_error_late. Qed.
+
+(* FULL STATEMENT (the part marked MISSING above), with the fragment writer / reader models of
+   property C01.  Vocabulary:
+     Model/Frag.v, Spec/FragOk.v      w_run capf (script3 a1 a2 a3) (w_init ck) [] = the handler writing
+                                      arg1..arg3 with ANY sequence of Writes and Flushes (a_i : list witem,
+                                      arg_bytes a_i = the bytes) into fragments offering capf true / capf false
+                                      bytes to chunks; ws_out st = the fragments handed to flushFragment
+     Proofs/FragWireP.v               frag_capacity msghdr ck = 65519 - (1 + |msghdr| + 1 + checksum size): what
+                                      a pooled frame leaves for chunks; kind_ok kind = checksum none/crc32/crc32c
+     Proofs/AppErrP.v (glue only)     frag_flags f, frag_rest f = the flags byte and the bytes behind the message
+                                      header (checksum type, checksum, chunks) of fragment f as finish/flush lay
+                                      them out -- the [flags] and [rest] of C20_apperr_partial;
+                                      resp_frames true sid rs hdrs fs = the frames of the response: the first by
+                                      callres_frame (response code of rs), the others call res continue frames;
+                                      wire_frames true id code hdrs fs = the same in specification form:
+                                      s_frame 4 id ([flags] ++ s_callres code tracing hdrs ++ rest) followed by
+                                      s_frame 0x14 id ([flags] ++ rest) for each continuation fragment;
+                                      relay_all hops ws = every frame through relay_chain hops (None = some frame
+                                      was not forwarded);
+                                      recv_fragments true id ws = the caller's connection reads each frame
+                                      (ReadIn, dispatch to exchange id), the response reader demands call res then
+                                      call res continue (recvPeerFrameOfType) and parses each with
+                                      parseInboundFragment (FragWire.parse_frag_payload);
+                                      reads_back fs b1 b2 b3 = the fragmenting reader on fs returns exactly b1, b2,
+                                      b3 -- with any positive read sizes continued to end-of-stream, and through
+                                      ArgReadHelper.Read with any buffer size -- every operation returns nil, it
+                                      ends Complete and releases every fragment (unfolded in C20_reads_back). *)
+From Verif Require Model.Crc Model.Frag Model.FragWire Spec.FragOk Proofs.FragWireP Proofs.FragRP Proofs.FragRoundtrip Proofs.AppErrP.
+Module AppErrFull.
+  Import Model.Crc Model.Frag Model.FragWire Spec.FragOk Proofs.FragWireP Proofs.FragRoundtrip Proofs.AppErrP.
+
+  (* a response of ANY number of fragments, any write/flush pattern, any capacities from (3,5) up
+     to what a frame holds, any checksum kind, with SetApplicationError called (app = true) or not,
+     through any number of LIVE relays: every frame is forwarded with only the id changed, the
+     caller's ApplicationError() equals the handler's flag, the caller's reader receives the same
+     fragments and returns exactly the handler's three arguments *)
+  Theorem C20_apperr : forall sid (app : bool) hdrs hops capf kind a1 a2 a3,
+    u_ok 4 sid -> kvs8_ok hdrs -> kind_ok kind -> Forall (hop_live true) hops ->
+    let code := if app then 1 else 0 in
+    3 <= capf true <= frag_capacity (s_callres code (s_tracing 0 0 0 0) hdrs) (ck_fresh kind) ->
+    5 <= capf false <= frag_capacity [] (ck_fresh kind) ->
+    forall rs, (if app then set_application_error (mkResp 0 false) else Some (mkResp 0 false)) = Some rs ->
+    let cid := final_id sid hops in
+    exists codes st wires wires' f1 fs1,
+      w_run capf (script3 a1 a2 a3) (Frag.w_init (ck_fresh kind)) [] = Some (codes, st) /\
+      Forall (fun c => c = 0) codes /\ ws_out st = f1 :: fs1 /\
+      resp_frames true sid rs hdrs (ws_out st) = Some wires /\
+      wires = wire_frames true sid code hdrs (ws_out st) /\
+      relay_all hops wires = Some wires' /\
+      caller_receive false cid waiting (hd [] wires') = (CRes code (frag_rest f1), false) /\
+      application_error code = app /\ spec_app_error code = app /\
+      recv_fragments true cid wires' = Some (ws_out st) /\
+      reads_back (ws_out st) (arg_bytes a1) (arg_bytes a2) (arg_bytes a3).
+  Proof. exact apperr_full. Qed.
+
+  (* relays in ANY state (items, tombs, timers, queues; cf. C20_relay_transparent): whenever all
+     frames of the response come out of the chain, the caller gets flag, fragments and arguments *)
+  Theorem C20_apperr_forwarded : forall sid (app : bool) hdrs hops capf kind a1 a2 a3,
+    u_ok 4 sid -> kvs8_ok hdrs -> kind_ok kind -> Forall hop_ids_ok hops ->
+    let code := if app then 1 else 0 in
+    3 <= capf true <= frag_capacity (s_callres code (s_tracing 0 0 0 0) hdrs) (ck_fresh kind) ->
+    5 <= capf false <= frag_capacity [] (ck_fresh kind) ->
+    forall rs, (if app then set_application_error (mkResp 0 false) else Some (mkResp 0 false)) = Some rs ->
+    let cid := final_id sid hops in
+    exists codes st wires f1 fs1,
+      w_run capf (script3 a1 a2 a3) (Frag.w_init (ck_fresh kind)) [] = Some (codes, st) /\
+      Forall (fun c => c = 0) codes /\ ws_out st = f1 :: fs1 /\
+      resp_frames true sid rs hdrs (ws_out st) = Some wires /\
+      reads_back (ws_out st) (arg_bytes a1) (arg_bytes a2) (arg_bytes a3) /\
+      forall wires', relay_all hops wires = Some wires' ->
+        caller_receive false cid waiting (hd [] wires') = (CRes code (frag_rest f1), false) /\
+        application_error code = app /\ spec_app_error code = app /\
+        recv_fragments true cid wires' = Some (ws_out st).
+  Proof. exact apperr_forwarded. Qed.
+
+  (* reads_back, unfolded *)
+  Theorem C20_reads_back : forall fs b1 b2 b3, reads_back fs b1 b2 b3 <->
+    (forall ns1 ns2 ns3,
+       Forall (fun n => 0 < n) ns1 -> Forall (fun n => 0 < n) ns2 -> Forall (fun n => 0 < n) ns3 ->
+       FragRP.zsum ns1 > zlen b1 -> FragRP.zsum ns2 > zlen b2 -> FragRP.zsum ns3 > zlen b3 ->
+       exists l1 st1 l2 st2 l3 st3,
+         FragRP.arg_read false ns1 (Frag.r_init fs) = Some (0, l1, 0, st1) /\
+         FragRP.arg_read false ns2 st1 = Some (0, l2, 0, st2) /\
+         FragRP.arg_read true ns3 st2 = Some (0, l3, 0, st3) /\
+         FragRP.data_of l1 = b1 /\ FragRP.data_of l2 = b2 /\ FragRP.data_of l3 = b3 /\
+         FragRP.r_final (Z.of_nat (length fs)) st3) /\
+    (forall n1 n2 n3, 0 < n1 -> 0 < n2 -> 0 < n3 ->
+       exists st1 st2 st3,
+         FragRP.arg_helper false n1 (Frag.r_init fs) = Some (0, b1, 0, st1) /\
+         FragRP.arg_helper false n2 st1 = Some (0, b2, 0, st2) /\
+         FragRP.arg_helper true n3 st2 = Some (0, b3, 0, st3) /\
+         FragRP.r_final (Z.of_nat (length fs)) st3).
+  Proof. exact (fun fs b1 b2 b3 => conj (fun H => H) (fun H => H)). Qed.
+
+  Print Assumptions C20_apperr.
+  Print Assumptions C20_apperr_forwarded.
+
+  (* non-vacuity: application error, 6-byte fragments (six frames), crc32c, two relays: number of
+     frames, the caller's first-frame result (code 1), the three arguments read back *)
+  Example C20_apperr_example :
+    let capf := fun first : bool => if first then 6 else 6 in
+    let hops := [mkHop (ILive true 6) (ILive true 0) 1; mkHop (ILive true 7) (ILive true 0) 1] in
+    let a2 := [IWrite [1; 2; 3]; IFlush; IWrite [4; 5]] in
+    let a3 := [IWrite [6; 7; 8; 9; 10; 11; 12]] in
+    Forall (hop_live true) hops /\
+    3 <= capf true <= frag_capacity (s_callres 1 (s_tracing 0 0 0 0) []) (ck_fresh 3) /\
+    5 <= capf false <= frag_capacity [] (ck_fresh 3) /\
+    match w_run capf (script3 [] a2 a3) (Frag.w_init (ck_fresh 3)) [] with
+    | Some (_, st) =>
+        match resp_frames true 5 (mkResp 0 true) [] (ws_out st) with
+        | Some wires =>
+            match relay_all hops wires with
+            | Some wires' =>
+                (length wires', fst (caller_receive false 7 waiting (hd [] wires')),
+                 match recv_fragments true 7 wires' with
+                 | Some fs => option_map fst
+                     (FragWire.r_run [RBegin false; RHelper 4; RBegin false; RHelper 4; RBegin true; RHelper 4] (Frag.r_init fs) [])
+                 | None => None
+                 end)
+            | None => (0%nat, CWait, None)
+            end
+        | None => (0%nat, CWait, None)
+        end
+    | None => (0%nat, CWait, None)
+    end = (6%nat, CRes 1 [3; 3;248;159;82; 0;0; 0;2;1;2],
+           Some [0; 0;0;  0; 0;5;1;2;3;4;5;  0; 0;7;6;7;8;9;10;11;12]).
+  Proof.
+    cbv zeta. split; [|split; [|split; [|vm_compute; reflexivity]]].
+    - repeat constructor; cbn; try (intros _; reflexivity); unfold u_ok; cbn; lia.
+    - vm_compute. split; discriminate.
+    - vm_compute. split; discriminate.
+  Qed.
+End AppErrFull.
 
 (* ---- locally detected conditions map to the fixed codes of the statement *)
 Theorem C20_local_map : forall cond,
